@@ -10,6 +10,8 @@ import (
 	"bytes"
 	"crypto/ecdsa"
 	"errors"
+	"github.com/youchainhq/go-youchain/event"
+	"github.com/youchainhq/go-youchain/params"
 	"io"
 	"math/big"
 
@@ -32,7 +34,7 @@ func zzC02Addr(p ecdsa.PublicKey) common.Address { return common.Address{0xaa} }
 
 // Sign: an opaque signature; own records verify.
 func zzC02Sign(key *ecdsa.PrivateKey, data []byte) ([]byte, error) { return []byte{0x51}, nil }
-func zzC02Verify(vote *VoteItem, address common.Address) bool     { return true }
+func zzC02Verify(vote *VoteItem, address common.Address) bool      { return true }
 
 // RLP of a VoteItem: an opaque blob that decodes back to the same value.
 func zzC02Encode(val interface{}) ([]byte, error) {
@@ -55,9 +57,17 @@ func zzC02Decode(r io.Reader, val interface{}) error {
 }
 
 // fake youdb.Database: Put/Get are the crash-point granularity.
-type zzC02DB struct{ m map[string][]byte }
+type zzC02DB struct {
+	m         map[string][]byte
+	crashable bool // the process may be killed at any write, before the write is durable
+}
+
+type zzC02Crash struct{}
 
 func (d *zzC02DB) Put(k, v []byte) error {
+	if d.crashable && zzverif.Bool("killedAtThisWrite") {
+		panic(zzC02Crash{})
+	}
 	d.m[string(k)] = append([]byte(nil), v...)
 	return nil
 }
@@ -140,5 +150,92 @@ func zzH_C02_key() {
 	i1, i2 := zzverif.U8("i1"), zzverif.U8("i2")
 	k1, k2 := AddrTypeKey(a, t1, i1), AddrTypeKey(a, t2, i2)
 	zzverif.Assert(bytes.Equal(k1, k2) == (t1 == t2 && i1 == i2), "AddrTypeKey is injective in (kind, slot)")
+	zzverif.Reach("end")
+}
+
+// ---- the voter around the vote database: nothing leaves the node before it is durable ----
+
+var zzC02Sent []VoteType
+
+func zzC02Post(mux *event.TypeMux, ev interface{}) error {
+	if m, ok := ev.(SendMessageEvent); ok {
+		switch m.Code {
+		case msgPrevote:
+			zzC02Sent = append(zzC02Sent, Prevote)
+		case msgPrecommit:
+			zzC02Sent = append(zzC02Sent, Precommit)
+		case msgNext:
+			zzC02Sent = append(zzC02Sent, NextIndex)
+		case msgCertificate:
+			zzC02Sent = append(zzC02Sent, Certificate)
+		}
+	}
+	return nil
+}
+
+func zzC02SignVote(v *Voter, voteType VoteType, blockHash common.Hash, stepView *StepView) (*SingleVote, error) {
+	return &SingleVote{Votes: 1}, nil
+}
+
+func zzC02EncodeMsg(val interface{}) ([]byte, error) { return []byte{1}, nil }
+
+// zzH_C02_voter: the real Voter.vote over the real VoteDB on a database whose every write may
+// be the moment the process is killed (the write is then not durable).  Across any number of
+// such lifetimes on one database, in one round and index, the node emits at most one vote of
+// a kind (two next-index votes): a vote is handed to the network only after its record is durable.
+//
+//verif:replace (*$M/event.TypeMux).AsyncPost zzC02Post
+//verif:replace (*$M/consensus/ucon.Voter).signVote zzC02SignVote
+//verif:replace $M/consensus/ucon.Encode zzC02EncodeMsg
+//verif:noop (*$M/consensus/ucon.Voter).judgeVoteCount
+func zzH_C02_voter() {
+	zzC02Sent = nil
+	lives := zzverif.Bound("lifetimes", 2, 3)
+	db := &zzC02DB{m: map[string][]byte{}, crashable: true}
+	sk := zzC02Key()
+	round := big.NewInt(7)
+	t := VoteType(zzverif.U8("kind"))
+	zzverif.Assume(t == Prevote || t == Precommit || t == NextIndex || t == Certificate)
+	for life := 0; life < lives; life++ {
+		func() {
+			defer func() {
+				if r := recover(); r != nil {
+					if _, ok := r.(zzC02Crash); !ok {
+						panic(r)
+					}
+					zzverif.Reach("killed")
+				}
+			}()
+			v := &Voter{round: round, roundIndex: 1, rawSk: sk, voteOver: map[common.Hash]*VoteStatus{}, eventMux: new(event.TypeMux)}
+			v.voteCache = NewVoteDB(db, sk)
+			v.voteCache.UpdateContext(round, 1)
+			w := NewVotesWrapper()
+			w.clearVotesInfo(round, 1)
+			v.votesMgr = w
+			v.isValidatorFn = func(r *big.Int, ri uint32, step uint32, lb params.LookBackType) (bool, *StepView) {
+				return true, &StepView{SubUsers: 1, Threshold: 1000, ValidatorType: params.KindChamber}
+			}
+			// what the node wants to vote for may differ from lifetime to lifetime (a better proposal arrived)
+			n := 1 + zzverif.Choose("votesThisLifetime", 2)
+			for k := 0; k < n; k++ {
+				var h common.Hash
+				h[0] = byte(1 + life*2 + k)
+				if v.vote(t, h, common.Hash{}) == nil {
+					zzverif.Reach("voted")
+				}
+			}
+		}()
+	}
+	same := 0
+	for _, s := range zzC02Sent {
+		if s == t {
+			same++
+		}
+	}
+	if t == NextIndex {
+		zzverif.Assert(same <= 2, "at most two next-index votes leave the node per round and index")
+	} else {
+		zzverif.Assert(same <= 1, "at most one vote of a kind leaves the node per round and index, whatever write the process is killed at")
+	}
 	zzverif.Reach("end")
 }
